@@ -354,6 +354,38 @@ func ruleScatterOneTargetPerPeer(c *Ctx) {
 		"the excluded set starts empty and nothing re-tests the chosen store: an early peer may take the store of a later peer which then stays, both share one key of the store-keyed target map and the operator drops a replica")
 }
 
+// ruleLabelPropertyPairs: "this store rejects leaders" is decided by comparing
+// every configured (key, value) entry with every label of the store — several
+// entries may share a key, so the configured list is never folded by key.
+func ruleLabelPropertyPairs(c *Ctx) {
+	P := c.P
+	rule := c.Prop + "/filter-predicates"
+	fn := P.Method("server/config", "PersistOptions", "CheckLabelProperty")
+	key := P.Field("github.com/pingcap/kvproto/pkg/metapb", "StoreLabel", "Key")
+	val := P.Field("github.com/pingcap/kvproto/pkg/metapb", "StoreLabel", "Value")
+	cfgKey := P.Field("server/config", "StoreLabel", "Key")
+	cfgVal := P.Field("server/config", "StoreLabel", "Value")
+	c.need(rule, fn, "answer true", func(x ssa.Instruction) bool {
+		r, ok := x.(*ssa.Return)
+		if !ok || len(r.Results) != 1 {
+			return false
+		}
+		b, isC := constBool(retVal(r, 0))
+		return isC && b
+	}, []Ev{guardRel("label key == configured key", "==", loadOfField(key), loadOfField(cfgKey)), guardRel("label value == configured value", "==", loadOfField(val), loadOfField(cfgVal))}, all,
+		"true only for a store label equal in key and value to one configured entry, the entry read from the list itself")
+	// no map built over the configured entries
+	folded := false
+	for _, b := range fn.Blocks {
+		for _, ins := range b.Instrs {
+			if _, ok := ins.(*ssa.MapUpdate); ok {
+				folded = true
+			}
+		}
+	}
+	c.Check(!folded, rule, "configured entries in "+fnName(fn), "compared one by one (entries may share a key)", P.pos(fn.Pos()), "a map is built in the check")
+}
+
 // ruleScatterCandidatesFiltered: every store that becomes a scatter candidate
 // passed filter.Target with the scatterer's filters — on every path, also on
 // the "all stores equally loaded" shortcut.
@@ -398,11 +430,11 @@ func ruleScatterCandidatesFiltered(c *Ctx) {
 func init() {
 	register("C11", "Scatter and balance moves preserve a region's replica count and roles", func(c *Ctx) {
 		c.Group("C11/target-filter-sets", "every target selection of the schedulers and the scatterer passes an effective store-state filter; region-target selections exclude the region's stores (as targets) and keep placement; leader-target selections accept leaders", func() { ruleSchedulerTargetSets(c); ruleScatterCandidatesFiltered(c) })
-		c.Group("C11/leader-candidates", "(shared with C08) the operator builder forces a leader onto a store that does not accept leaders only where explicitly asked to", func() { ruleForceFlagOwnership(c) })
+		c.Group("C11/leader-candidates", "(shared with C08) the operator builder forces a leader onto a store that does not accept leaders only where explicitly asked to", func() { ruleForceFlagOwnership(c); ruleLeaderRoleRules(c) })
 		c.Group("C11/role-preserved", "a moved peer keeps its role (copied from the replaced peer found by store regardless of role)", func() { ruleRolePreserved(c) })
 		c.Group("C11/leader-to-follower", "leadership is transferred only to stores holding a follower of the region", func() { ruleLeaderTransferTargets(c) })
 		c.Group("C11/scatter-one-target-per-peer", "the scatterer never lets two origin peers end on one store", func() { ruleScatterOneTargetPerPeer(c) })
-		c.Group("C11/filter-predicates", "(shared with C10) store-state condition lists and filter predicates", func() { ruleFilterPredicates(c) })
+		c.Group("C11/filter-predicates", "(shared with C10) store-state condition lists and filter predicates; reject-leader label entries compared one by one", func() { ruleFilterPredicates(c); ruleLabelPropertyPairs(c) })
 		c.Group("C11/id-kind", "(shared with C09) store ids, peer ids and region ids are not mixed in the schedulers", func() { ruleIDKinds(c, "server/schedulers", "server/schedule") })
 	})
 }
